@@ -110,9 +110,45 @@ Proof.
     + destruct (find_alt cur (it_alts it)) as [v|].
       * apply den_rescale_up, den_of_amount.
       * destruct (find_rate ic cur rates) as [r|]; [|exact I].
-        cbn [oden]. apply (den_rescale _ (prod rnd (raise isub (of_amount (it_price it))) (toQ r))).
-        apply den_mul; [apply den_rescale_up, den_of_amount|reflexivity].
+        cbn [oden]. apply (den_rescale _ (prod rnd (raise c (raise isub (of_amount (it_price it)))) (toQ r))).
+        apply den_mul; [|reflexivity]. unfold match_precision. cbn [exp zero_of].
+        apply den_rescale_up, den_rescale_up, den_of_amount.
   - apply den_rescale_up, den_of_amount.
+Qed.
+
+(* a price converted by an exchange rate, written with no more decimals than the document's
+   currency (and in a currency of no more decimals): the exact product price x rate rounded ONCE,
+   to the currency's decimals (ExchangeRate.Convert as repaired; before, the product was first
+   rounded to the decimals of the price: JPY 1550 x 0.0062 gave 10.00 EUR instead of 9.61) *)
+Lemma converted_price_rounded_once it cur c rates ic isub r :
+  it_cur it = Some (ic, isub) -> (ic =? cur)%Z = false -> find_alt cur (it_alts it) = None ->
+  find_rate ic cur rates = Some r -> (exp (it_price it) <= c)%nat -> (isub <= c)%nat ->
+  exists p, item_price it cur c rates = Some p /\ exp p = c /\ toQ p == rnd c (toQ (it_price it) * toQ r).
+Proof.
+  intros Hc Hne Ha Hr He Hs. unfold item_price. rewrite Hc, Hne, Ha, Hr.
+  set (P := match_precision (rescale_up (it_price it) isub) (zero_of c)).
+  assert (EP : exp P = c).
+  { unfold P, match_precision. cbn [exp zero_of]. rewrite !rescale_up_exp. lia. }
+  assert (QP : toQ P == toQ (it_price it)).
+  { unfold P, match_precision. rewrite !rescale_up_toQ. reflexivity. }
+  eexists. split; [reflexivity|]. split; [apply rescale_exp|].
+  rewrite rescale_same by (rewrite mul_exp; exact EP).
+  rewrite toQ_mul, EP. rewrite (rnd_compat c (toQ P * toQ r) (toQ (it_price it) * toQ r)); [reflexivity|].
+  rewrite QP. reflexivity.
+Qed.
+
+(* ... and the hypothesis on the decimals of the price is needed: a price with MORE decimals than
+   the currency is still rounded twice (at its own decimals, then to the currency's):
+   0.0999 x 0.05 = 0.004995 -> 0.0050 -> 0.01, rounded once 0.00 *)
+Lemma converted_price_rounded_once_beyond_currency_decimals_refuted :
+  exists it cur c rates ic isub r p,
+    it_cur it = Some (ic, isub) /\ (ic =? cur)%Z = false /\ find_alt cur (it_alts it) = None /\
+    find_rate ic cur rates = Some r /\ (isub <= c)%nat /\
+    item_price it cur c rates = Some p /\ ~ toQ p == rnd c (toQ (it_price it) * toQ r).
+Proof.
+  exists (mkItem (mkA 999 4) (Some (2%Z, 2%nat)) []), 1%Z, 2%nat, [mkXrate 2 1 (mkA 5 2)], 2%Z, 2%nat, (mkA 5 2).
+  eexists. do 4 (split; [reflexivity|]). split; [cbn; lia|]. split; [vm_compute; reflexivity|].
+  vm_compute. discriminate.
 Qed.
 
 (* ------------------------------------------------------------------------------------------ *)
@@ -778,11 +814,12 @@ Proof.
   assert (TA : toQ tax == s_tax rnd cr c ics) by (unfold tax; rewrite precise_or_toQ; exact TX).
   set (twt := add total tax).
   assert (TW : den twt (mkF (ftotal + rnd ws (s_tax rnd cr c ics)) ws)) by (apply (den_add total _ tax _ TT TA)).
-  set (payable := match d_rounding d with Some r => add twt r | None => twt end).
-  set (fpayable := ftotal + rnd ws (s_tax rnd cr c ics) + match d_rounding d with Some r => rnd ws (toQ r) | None => 0 end).
+  set (payable := match match d_rounding d with Some r => Some (rescale r c) | None => None end with
+                  | Some r => add twt r | None => twt end).
+  set (fpayable := ftotal + rnd ws (s_tax rnd cr c ics) + match d_rounding d with Some r => rnd ws (rnd c (toQ r)) | None => 0 end).
   assert (PY : den payable (mkF fpayable ws)).
   { unfold payable, fpayable. destruct (d_rounding d) as [r|].
-    - apply (den_add twt _ r (toQ r) TW). reflexivity.
+    - apply (den_add twt _ (rescale r c) (rnd c (toQ r)) TW). apply (pres_rescale c r (toQ r)). reflexivity.
     - eapply den_Qeq; [exact TW| |reflexivity]. cbn [fq]. ring. }
   assert (AD : Forall2 den (map (advance_amount c twt) (d_advances d))
                            (map (s_advance rnd c (mkF (ftotal + rnd ws (s_tax rnd cr c ics)) ws)) (d_advances d))).
